@@ -170,8 +170,10 @@ type GenOpts struct {
 	OrderLimit bool     `json:"order_limit"`
 	// ShuffleCols: INSERT column lists in random order (key not first)
 	ShuffleCols bool `json:"shuffle_cols"`
-	// MultiUpsert: multi-row INSERT ... ON DUPLICATE KEY UPDATE (known-finding trigger, off in most runs)
+	// MultiUpsert: multi-row INSERT ... ON DUPLICATE KEY UPDATE
 	MultiUpsert bool `json:"multi_upsert"`
+	// BigBlob: most blob values are 40-60 KB of random bytes
+	BigBlob bool `json:"big_blob,omitempty"`
 }
 
 var allTypes = []string{"int", "bigint", "varchar", "decimal", "double", "float", "datetime", "datetime3", "text", "blob", "tinyint", "date", "mediumtext", "longtext", "char", "smallint", "varbinary"}
@@ -245,6 +247,14 @@ func genValFor(g *simkit.Gen, c ColDef, o GenOpts) Val {
 			return VB([]byte{})
 		}
 		n := g.Range(1, 6)
+		if base == "blob" && o.Trouble && (g.Prob(0.3) || o.BigBlob) {
+			// high-entropy payload: the serialized undo log does not shrink under
+			// a block compressor (the compressor may refuse it)
+			n = g.Range(600, 2400)
+			if g.Prob(0.4) || (o.BigBlob && g.Prob(0.6)) {
+				n = g.Range(40000, 60000) // LZ4 gives up on a log this dominates
+			}
+		}
 		b := make([]byte, n)
 		for i := range b {
 			b[i] = byte(g.Intn(256))
